@@ -207,10 +207,39 @@ def _rmq():
     return RangeMinQuery
 
 
+def _prime_lca(T, root, by_path):
+    """history independence: a structure is first built on the same root object while one subtree hangs
+    elsewhere; the subtree is then moved back in place (same parent, same position) before the structure
+    that is observed gets built.  Nothing remembered from the first construction may leak into the second."""
+    paths = sorted(p for p in by_path if p)
+    if len(paths) < 2:
+        return
+    x = by_path[paths[-1]]
+    px = x.up
+    ix = px.children.index(x)
+    inside = {id(n) for n in x.traverse()}
+    targets = [n for p, n in sorted(by_path.items()) if n is not px and id(n) not in inside]
+    if not targets:
+        return
+    t = targets[-1]
+    px.children.pop(ix)
+    t.children.append(x)
+    x.up = t
+    try:
+        T.LowestCommonAncestor(root)
+    except Exception:  # noqa: BLE001 - the priming construction is not judged
+        pass
+    t.children.pop()
+    px.children.insert(ix, x)
+    x.up = px
+
+
 def impl_lca(case):
     import ete3
     T = _trees()
     root, by_path, by_id = build_ete(case["shape"])
+    if len(case["queries"]) % 2 == 0:
+        _prime_lca(T, root, by_path)
     try:
         L = T.LowestCommonAncestor(root)
     except Exception as e:  # noqa: BLE001 - any exception is a result here
